@@ -39,15 +39,16 @@ var _ Pass = (*InlineObjectsWithTypes)(nil)
 //	}
 //	```
 type InlineObjectsWithTypes struct {
-	InlineTypes     []ast.Kind
-	objectsToInline *orderedmap.Map[string, ast.Type]
+	InlineTypes []ast.Kind
+	// keyed by package and name: the two, joined by a dot, would not tell `k8s` + `io.Pod` from `k8s.io` + `Pod`
+	objectsToInline *orderedmap.Map[ast.RefType, ast.Type]
 	// references being inlined: inlined objects can refer to each other, or to themselves
-	inlining map[string]struct{}
+	inlining map[ast.RefType]struct{}
 }
 
 func (pass *InlineObjectsWithTypes) Process(schemas []*ast.Schema) ([]*ast.Schema, error) {
-	pass.objectsToInline = orderedmap.New[string, ast.Type]()
-	pass.inlining = make(map[string]struct{})
+	pass.objectsToInline = orderedmap.New[ast.RefType, ast.Type]()
+	pass.inlining = make(map[ast.RefType]struct{})
 
 	for _, schema := range schemas {
 		schema.Objects.Iterate(func(_ string, object ast.Object) {
@@ -64,7 +65,7 @@ func (pass *InlineObjectsWithTypes) Process(schemas []*ast.Schema) ([]*ast.Schem
 			}
 
 			// the visitor rewrites types in place: keep a copy that is not shared with the schemas
-			pass.objectsToInline.Set(object.SelfRef.String(), resolvedType.DeepCopy())
+			pass.objectsToInline.Set(object.SelfRef, resolvedType.DeepCopy())
 		})
 	}
 
@@ -79,7 +80,7 @@ func (pass *InlineObjectsWithTypes) Process(schemas []*ast.Schema) ([]*ast.Schem
 
 	for i, schema := range newSchemas {
 		newSchemas[i].Objects = schema.Objects.Filter(func(_ string, object ast.Object) bool {
-			return !pass.objectsToInline.Has(object.SelfRef.String())
+			return !pass.objectsToInline.Has(object.SelfRef)
 		})
 
 		// the entry point can not designate an object that was inlined
@@ -93,7 +94,7 @@ func (pass *InlineObjectsWithTypes) Process(schemas []*ast.Schema) ([]*ast.Schem
 }
 
 func (pass *InlineObjectsWithTypes) processRef(visitor *Visitor, schema *ast.Schema, def ast.Type) (ast.Type, error) {
-	ref := def.Ref.String()
+	ref := *def.Ref
 	if !pass.objectsToInline.Has(ref) {
 		return def, nil
 	}
@@ -104,7 +105,7 @@ func (pass *InlineObjectsWithTypes) processRef(visitor *Visitor, schema *ast.Sch
 		recursiveType := ast.Any()
 		recursiveType.Nullable = def.Nullable
 		recursiveType.Default = def.Default
-		recursiveType.AddToPassesTrail(fmt.Sprintf("InlineObjectsWithTypes[recursive=%s]", ref))
+		recursiveType.AddToPassesTrail(fmt.Sprintf("InlineObjectsWithTypes[recursive=%s]", ref.String()))
 
 		return recursiveType, nil
 	}
